@@ -6,6 +6,8 @@ CONSTANTS
   ClearsLongData = TRUE
   RemoveOnClose = FALSE
   ReprepareFresh = TRUE
+  ClearsOnlyOwn = TRUE
+  KeepsEmptyLong = TRUE
 INVARIANTS P_Registry P_Agree
 VIEW view
 CHECK_DEADLOCK FALSE
